@@ -114,6 +114,58 @@ theorem roundtrip (w : World) (v1 v2 : Bool) (archive : Str) (into : Option Str)
   · simp only [extract]; rw [ex]; exact hwx
   · rw [hl.2, eq]; exact hoq rfl
 
+/-- the content of path `p` after a list of writes (each write creates or truncates its file) -/
+def contentAfter (writes : List (Str × Bytes)) (p : Str) : Option Bytes :=
+  (writes.reverse.find? (fun wr => wr.1 == p)).map (·.2)
+
+theorem nodup_map_inj : ∀ (l : List (Str × Bytes)), (l.map (·.1)).Nodup → ∀ x y, x ∈ l → y ∈ l → x.1 = y.1 → x = y := by
+  intro l
+  induction l with
+  | nil => intro _ x y hx; cases hx
+  | cons a r ih =>
+    intro hnd x y hx hy hxy
+    simp only [List.map_cons, List.nodup_cons, List.mem_map, not_exists, not_and] at hnd
+    rcases List.mem_cons.mp hx with rfl | hx' <;> rcases List.mem_cons.mp hy with rfl | hy'
+    · rfl
+    · exact absurd hxy.symm (hnd.1 y hy')
+    · exact absurd hxy (hnd.1 x hx')
+    · exact ih hnd.2 x y hx' hy' hxy
+
+theorem contentAfter_of_nodup : ∀ (writes : List (Str × Bytes)), (writes.map (·.1)).Nodup →
+    ∀ wr ∈ writes, contentAfter writes wr.1 = some wr.2 := by
+  intro writes hnd wr hm
+  unfold contentAfter
+  have hmem : wr ∈ writes.reverse := List.mem_reverse.mpr hm
+  cases hf : writes.reverse.find? (fun x => x.1 == wr.1) with
+  | none =>
+    have := List.find?_eq_none.mp hf wr hmem
+    simp at this
+  | some x =>
+    have hx1 : x.1 = wr.1 := by have := List.find?_some hf; simpa using this
+    have hxm : x ∈ writes := List.mem_reverse.mp (List.mem_of_find?_eq_some hf)
+    -- two writes to the same path in a list without repeated paths are the same write
+    have : x = wr := nodup_map_inj writes hnd x wr hxm hm hx1
+    rw [this]; rfl
+
+/-- **C01 (what the destination directory holds afterwards)**: when the catalog names of the sources
+    are pairwise distinct, after create then extract every source's content sits under its
+    upper-cased 8.3 name in the destination: no file overwrites another -/
+theorem roundtrip_directory (w : World) (v1 v2 : Bool) (archive : Str) (into : Option Str) (srcs : List Str)
+    (hr : AllReadable w srcs) (hn : ValidNames srcs)
+    (hfit : Spec.K7.encSize (srcs.map (C03.specFile w)) < 21504)
+    (hd : (srcs.map fun s => pathJoin (targetDirOf archive into) (catalogName s)).Nodup) :
+    ∃ tape, (inject w v1 archive srcs).writes = [(archive, tape)]
+      ∧ ∀ s ∈ srcs, contentAfter (extract v2 archive into tape).writes (pathJoin (targetDirOf archive into) (catalogName s))
+          = some (contentOf w s) := by
+  obtain ⟨tape, h1, _, h3, _⟩ := roundtrip w v1 v2 archive into srcs hr hn hfit
+  refine ⟨tape, h1, ?_⟩
+  intro s hs
+  rw [h3]
+  have := contentAfter_of_nodup (srcs.map (fun s => (pathJoin (targetDirOf archive into) (catalogName s), contentOf w s)))
+    (by simpa [List.map_map, Function.comp_def] using hd)
+    (pathJoin (targetDirOf archive into) (catalogName s), contentOf w s) (List.mem_map_of_mem hs)
+  exact this
+
 /-- the hypotheses are satisfiable: an ordinary name is `NameOK` -/
 example : NameOK (str "A") (str "BAS") := ⟨by decide, by decide, by decide, by decide, by decide⟩
 example : NameOK (str "NOEXT") [] := ⟨by decide, by decide, by decide, by decide, by decide⟩
